@@ -39,6 +39,11 @@ def Ty.isOpt : Ty → Bool
 
 def Ty.bool : Ty := .prim .bool
 
+/-- function-like types: their names are not variables of the evaluation environment -/
+def Ty.isFn : Ty → Bool
+  | .verif .. | .builtin .. | .method .. => true
+  | _ => false
+
 /-- `isinstance(t, PrimitiveTypeAnnotation) and t.a_type in (INT, LENGTH)` -/
 def Ty.isIntLike : Ty → Bool
   | .prim .int | .prim .length => true
@@ -50,10 +55,13 @@ def Ty.isNumeric : Ty → Bool
   | _ => false
 
 /-- A class as the inferrer sees it (`properties_by_name`, `methods_by_name` — both include
-the inherited members — and the transitive descendants for the subclass relation). -/
+the inherited members — and the transitive descendants for the subclass relation).
+`methods` maps a method to its return type, `mparams` (same keys) to the declared types of its
+arguments (`method.arguments`, no `self`). -/
 structure ClassDecl where
   props : List (Text × Ty)
   methods : List (Text × Ty)
+  mparams : List (Text × List Ty)
   descendants : List Text
   deriving Repr, Inhabited
 
@@ -61,15 +69,19 @@ structure ClassDecl where
 inductive OurDecl where
   | cls (c : ClassDecl)
   | enum (literals : List Text)
-  /-- constrained primitive with its constrainee -/
-  | cprim (constrainee : Prim)
+  /-- constrained primitive: its constrainee, whether it has invariants (`len(invariants) > 0`)
+  and its transitive descendants (`descendant_id_set`) -/
+  | cprim (constrainee : Prim) (constrained : Bool) (descendants : List Text)
   deriving Repr, Inhabited
 
+/-- A verification function: the declared types of its arguments and its return type. -/
 structure FnSig where
   name : Text
-  nargs : Nat
+  params : List Ty
   returns : Ty
   deriving Repr, Inhabited
+
+def FnSig.nargs (f : FnSig) : Nat := f.params.length
 
 /-- What the inferrer reads from the symbol table. -/
 structure Decls where
@@ -103,10 +115,16 @@ def Decls.baseScope (D : Decls) : List (Text × Ty) :=
         | _ => none)
 
 /-- Typing environment: declarations and the chain of scopes flattened, innermost first
-(loop variables, then `self`, then the base environment). -/
+(loop variables, then `self`, then the base environment).
+
+`backend = true` makes the inference also apply the one check that the *Python transpiler*
+(`python/transpilation.py`, after a successful inference, on the recorded `type_map`) makes on
+the types: the argument of `len` is a string, a byte array or a list.  The inferrer proper is
+`backend = false`. -/
 structure TEnv where
   decls : Decls
   scope : List (Text × Ty)
+  backend : Bool := false
   deriving Repr, Inhabited
 
 /-- `Environment.find`. -/
@@ -118,5 +136,17 @@ def TEnv.bind (Γ : TEnv) (x : Text) (τ : Ty) : TEnv := { Γ with scope := (x, 
 /-- The environment of the invariants of our type `self`: `self ↦ our self` over the base. -/
 def TEnv.forSelf (D : Decls) (self : Text) : TEnv :=
   { decls := D, scope := (selfName, Ty.our self) :: D.baseScope }
+
+/-- `try_primitive_type`: the primitive type of a primitive or of a constrained primitive. -/
+def Decls.tryPrim (D : Decls) : Ty → Option Prim
+  | .prim p => some p
+  | .our n =>
+    match D.findOur n with
+    | some (.cprim p _ _) => some p
+    | _ => none
+  | _ => none
+
+/-- a boolean context accepts `bool` and constrained primitives over `bool` -/
+def Decls.isBool (D : Decls) (τ : Ty) : Bool := D.tryPrim τ == some .bool
 
 end AasVerif.Expr
